@@ -160,6 +160,12 @@ class Explorer:
             c.outcome = "error:" + simnet.exc_name(e)
             c.exc = repr(e)[:160]
             if type(e).__name__ in ("CancelledError", "Cancelled"):
+                if not getattr(c, "cancel_requested", False) and not getattr(self, "tearing_down", False):
+                    # nobody cancelled this caller: a cancellation that belongs to another request has been handed to it
+                    c.outcome = "error:Other"
+                    c.exc = "spurious " + repr(e)[:160]
+                    c.state = "done"
+                    return
                 c.outcome = "cancelled"
                 c.state = "done"
                 raise
@@ -324,6 +330,7 @@ def run_asyncio(ex, schedule_fn):
                 ex.violations.append(("C07:live-lock", {"callers": [(c.idx, c.state) for c in ex.callers if c.state != "done"], "repr": repr(ex.pool),
                                                         "conns": [c.info() for c in ex.pool.connections], "runtime": "asyncio"}))
             # stop anything still blocked so that the loop can end
+            ex.tearing_down = True
             for c in ex.callers:
                 if c.task is not None and not c.task.done():
                     c.task.cancel()
@@ -347,6 +354,7 @@ def run_trio(ex, schedule_fn):
             self.steps += 1
             if self.steps > 400000 and self.scope is not None and not getattr(ex, "livelock", False):
                 ex.livelock = True
+                ex.tearing_down = True
                 self.scope.cancel()
 
     budget = StepBudget()
@@ -371,6 +379,7 @@ def run_trio(ex, schedule_fn):
                 nursery.start_soon(runner)
 
             await schedule_fn(ex, spawn, settle)
+            ex.tearing_down = True
             nursery.cancel_scope.cancel()
 
     clock = trio.testing.MockClock()
